@@ -1,6 +1,7 @@
 package checks
 
 import (
+	"bytes"
 	"fmt"
 	"os"
 	"time"
@@ -362,6 +363,23 @@ func c08Mutants() []c08Mutant {
 				p.ReceiptsRoot[3] ^= 1
 			})
 		}},
+		{name: "request entry without data appended under the same block hash", build: func(e *c08Env) [][]byte {
+			return e.withField(func(p *goatxtypes.ExecutionPayload) {
+				ty := byte(0x0b)
+				if len(p.Requests) > 0 && len(p.Requests[len(p.Requests)-1]) > 0 {
+					ty = p.Requests[len(p.Requests)-1][0]
+				}
+				p.Requests = append(append([][]byte{}, p.Requests...), []byte{ty})
+			})
+		}},
+		{name: "last request entry dropped under the same block hash", build: func(e *c08Env) [][]byte {
+			if len(e.payload.Requests) < 2 {
+				return nil
+			}
+			return e.withField(func(p *goatxtypes.ExecutionPayload) {
+				p.Requests = append([][]byte{}, p.Requests[:len(p.Requests)-1]...)
+			})
+		}},
 		{name: "base fee changed under the same block hash", build: func(e *c08Env) [][]byte {
 			return e.withField(func(p *goatxtypes.ExecutionPayload) { p.BaseFeePerGas = p.BaseFeePerGas.AddRaw(1) })
 		}},
@@ -629,6 +647,18 @@ func c08Solo(c *vc.Ctx, idx int) {
 		c.Violation("honest proposal rejected", rj.Error(), h.replay())
 	}
 	for b := 0; b < cfg.Blocks && !h.failed; b++ {
+		// every seventh block the execution layer fills its block with user transactions (about half a megabyte): the
+		// honest block message carries them all and must still be accepted and succeed
+		if b%7 == 5 {
+			var big [][]byte
+			for k := 0; k < 12; k++ {
+				big = append(big, bytes.Repeat(world.Derive(c.Seed, "c08bigtx", idx*1000+b*16+k), 1280)) // 40 KiB each
+			}
+			h.ch.Nodes[0].EL.UserTxs = big
+			c.Count("honest_payloads_of_half_a_megabyte", 1)
+		} else {
+			h.ch.Nodes[0].EL.UserTxs = nil
+		}
 		if !h.step() {
 			break
 		}
@@ -648,8 +678,8 @@ func init() {
 		ID: "C08", Title: "Honest proposals are always accepted; accepted proposals are well-formed", Level: "exploration",
 		Rule: "one case = one cluster history (2..4 validators each running a node, CometBFT proposer rotation, 24/70 blocks) on a well-behaved execution layer: random locking requests (unlock bursts, claims >16, maturing unlocks), withdrawals, elections every 25 s, " +
 			"and relayer transactions gossiped into every mempool (valid votes, invalid votes, nonce gaps, expiring timeouts, non-proposer senders, malformed deposits). (a) every honest proposal must have <= 16 txs, be ACCEPTed by every node and its block message must succeed; " +
-			"(b) every third height the honest proposal is mutated by 28 operators (block message missing/second/duplicated/accompanied/bundled in a later transaction, foreign message, wrong parent/number/beacon root/author/recipient, system txs dropped/duplicated/reordered/altered/extra/miscounted, 0 or 2 gas requests, unknown-type or empty requests, future timestamp, nil payload, engine INVALID/SYNCING/ACCEPTED/error) with block hashes recomputed so that only the consensus-side checks can object; every node must refuse each; " +
-			"(a') 12/120 further single-node histories (70/160 blocks) of well-behaved locking traffic under heavy punishment (short windows, half/all slashed in every fourth): unlocks above what slashing left, of tokens slashed away, dust, claims and locks for jailed or exited validators; honest proposal accepted and block message succeeds in every block; " +
+			"(b) every third height the honest proposal is mutated by 28 operators (block message missing/second/duplicated/accompanied/bundled in a later transaction, foreign message, wrong parent/number/beacon root/author/recipient, system txs dropped/duplicated/reordered/altered/extra/miscounted, 0 or 2 gas requests, unknown-type or empty requests, future timestamp, nil payload, engine INVALID/SYNCING/ACCEPTED/error) with block hashes recomputed so that only the consensus-side checks can object, plus ten operators that change one payload field or the request list under the unchanged block hash (which the engine must catch, provided every field reaches it); every node must refuse each; " +
+			"(a') 12/120 further single-node histories (70/160 blocks) of well-behaved locking traffic under heavy punishment (short windows, half/all slashed in every fourth): unlocks above what slashing left, of tokens slashed away, dust, claims and locks for jailed or exited validators; honest proposal accepted and block message succeeds in every block, including every seventh one whose payload carries half a megabyte of user transactions; " +
 			"(c) the cluster workload runs on the race-detector build with 0-4 ms engine jitter; every distinct race report with a goat frame is a violation. Non-trivial = every honest proposal and every mutant; distinct = (operator, system txs, txs).",
 		Assume: []string{"the fake execution client validates block hash consistency and known parents only", "race coverage is what the executed interleavings exhibit"},
 		Cases:  func(tier string) int { return map[string]int{"quick": 9 + 12, "thorough": 90 + 120}[tier] },
